@@ -20,6 +20,8 @@ func props() map[string]Prop {
 			ID: "C10", Level: "exploration",
 			Units: []Unit{
 				{Name: "format", Pkg: "internal/counter", Harness: "internal_counter", Run: "^TestVerifC10$", Instrument: counterInstr, Timeout: 30 * time.Minute},
+				// several concurrent writers: the C04 schedule harness (same strict decoder after every step), at a third of its size
+				{Name: "writers", Pkg: "internal/counter", Harness: "internal_counter", Run: "^TestVerifC04$", Instrument: counterInstr, Timeout: 40 * time.Minute, Env: []string{"VERIF_SCALE=0.34"}},
 			},
 			Assume: []string{
 				"the reference decoder/writer in /verif/ref follow the documented v1 layout (hash pinned by FNV-1a definition)",
@@ -34,6 +36,16 @@ func props() map[string]Prop {
 			Assume: []string{
 				"interleavings are explored at the granularity of the instrumented scheduling points (every atomic operation, lock acquisition, Once.Do and fs call in internal/counter and internal/mmap); sequential consistency between points",
 				"'waits forever' is judged as: no return within 60000 scheduling steps while all other threads have finished",
+			},
+		},
+		{
+			ID: "C04", Level: "exploration",
+			Units: []Unit{
+				{Name: "sched", Pkg: "internal/counter", Harness: "internal_counter", Run: "^TestVerifC04$", Instrument: counterInstr, Timeout: 40 * time.Minute},
+			},
+			Assume: []string{
+				"a process is emulated by an independent file value (own fd and MAP_SHARED mapping) driven by one virtual thread in the test process; kill = the thread is never scheduled again",
+				"interleavings at the granularity of the instrumented scheduling points; sequential consistency between points",
 			},
 		},
 	}
